@@ -141,6 +141,17 @@ SPECS = {
                      "resolved on clones (winner applies directly, by echo or detached; losers clear or just receive; stale commits and stale "
                      "detached secrets are offered afterwards) and compared with a per-member reference model (pending none/some, epoch); one "
                      "evaluation = one model prediction compared; distinct = distinct (operation, role, pending/detached, mode) cells"),
+    "C13": dict(shards=(8, 32), level="exploration", post="c13_post",
+                floors={"quick": {"offline_pure_values": 40000, "offline_insitu_epochs": 150, "offline_insitu_values": 3000,
+                                  "offline_insitu_epochs_with_psk": 20, "pure:openssl:suite4": 50, "pure:awslc:suite7": 50,
+                                  "pure:rustcrypto:suite3": 50}},
+                show=("histories", "commit_accepted", "pure_cases", "insitu", "offline_"),
+                rule="(1) pure: fresh (init secret, commit secret, GroupContext fields, PSK list of 0-6 mixed ids, tree size up to 2^10, leaf, "
+                     "key type, generation up to 1020, exporter label/context/length, plain ExpandWithLabel inputs) per provider x suite, "
+                     "derived through the hook wrappers and compared value by value with kdfref.py; (2) in situ: after each commit of real "
+                     "histories the members' secrets, the commit bytes, applied PSKs, recorded HKDF-Extract calls and application AEAD keys "
+                     "are replayed through the reference (transcript hashes, membership and confirmation tags, full schedule, exporter, "
+                     "secret tree); one evaluation = one case or one epoch; distinct = distinct cases / epochs"),
     "C14": dict(shards=(8, 32), level="exploration", valgrind=True,
                 floors={"quick": {"op:x509_validate_chain": 250, "op:hpke_open": 1200, "op:kdf_expand": 400, "op:verify": 300,
                                   "memcheck_clean_runs": 1}},
